@@ -989,6 +989,27 @@ func (s *hdSystem) foreignRoomSession(id string, b int) bool {
 	return sess.Backend().Id() != fmt.Sprintf("backend%d", b)
 }
 
+// backendHasRoom: would Backend.AddSession accept one more client session right now?
+func (s *hdSystem) backendHasRoom(i int) bool {
+	for _, b := range s.hub.backend.GetBackends() {
+		if s.backendIndex(b) == i {
+			return b.Limit() == 0 || b.Len() < b.Limit()
+		}
+	}
+	return false
+}
+
+// backendCounts: Backend.Len() per configured backend
+func (s *hdSystem) backendCounts() []int {
+	counts := make([]int, s.nb)
+	for _, b := range s.hub.backend.GetBackends() {
+		if i := s.backendIndex(b); i >= 0 && i < s.nb {
+			counts[i] = b.Len()
+		}
+	}
+	return counts
+}
+
 func (s *hdSystem) backendUrl(i int) string {
 	if i < 0 || i >= s.nb {
 		if (i-s.nb)%2 == 0 {
@@ -1063,6 +1084,7 @@ type hdDigest struct {
 	Subjects  map[string]int
 	McuOpen   []string
 	McuPending int
+	Counts    []int // Backend.Len() per configured backend
 }
 
 func (s *hdSystem) backendIndex(b *Backend) int {
@@ -1198,6 +1220,7 @@ func (s *hdSystem) digest() *hdDigest {
 		sort.Slice(l, func(i, j int) bool { return l[i] < l[j] })
 	}
 	d.Subjects = s.events.registrations()
+	d.Counts = s.backendCounts()
 	for _, o := range s.mcu.open() {
 		d.McuOpen = append(d.McuOpen, fmt.Sprintf("%s %d %s %s", o.Kind, o.Tok, o.Owner, o.Stream))
 	}
